@@ -18,11 +18,25 @@ NOT_APPLICABLE = [
     {"property_id": "C20", "reason": "iptables rule text is a pure function of the capture configuration; " + PURE},
 ]
 # properties planned in DESIGN.md whose check is not built yet (removed from here as they land)
-for _p, _sec in [("C04", "4.4"), ("C05", "4.5"), ("C06", "4.6"), ("C11", "4.7"), 
+for _p, _sec in [("C04", "4.4"), ("C06", "4.6"), ("C11", "4.7"), 
                  ("C15", "4.9"), ("C16", "4.10"), ("C18", "4.12")]:
     NOT_APPLICABLE.append({"property_id": _p, "reason": "not claimed yet: simulation target (DESIGN.md section %s) whose check is still being built; not a not-applicable verdict" % _sec})
 
 PROPERTIES = {
+    "C05": {
+        "design_ref": "4.5",
+        "technique": "deterministic simulation of the whole control plane with fault injection on the simulator-owned transport: stream cut at any step (incl. mid-push), send errors, client crash+reconnect with retained state, istiod restart over surviving API-server state, second live replica; fresh-replica and nothing-stays-warming oracles once faults stop",
+        "level_text": "seeded search over histories x cut points x missed changes x reconnect targets (same instance, other replica, restarted instance) for SotW and delta clients; after faults stop every client must equal a fresh replica and every re-sent subscription must have been answered on its current stream; sampling, not proof",
+        "level_note": "trusted: testing/synctest, FakeDiscoveryServer assembly, client models (what a client retains across streams is modelled after Envoy: versions, nonces, names, initial_resource_versions); the transport stub cancels the stream context when the server handler returns, as gRPC does; ztunnel not covered yet",
+        "rule": "each run = 1-3 clients, 1-2 live replicas, up to 60 steps (quick) drawn from {mutate, gap, deliver response, deliver request, send error, cut, reconnect, restart}; distinct = distinct schedule signature; non-trivial = a stream was cut while a response of a push was parked in Send, or a mutation happened while some client was disconnected",
+        "real": WIS_REAL, "stub": WIS_STUB,
+        "assumptions": ["both replicas see every mutation (one API server); only delivery timing differs"],
+        "subchecks": [
+            {"check": "c05", "what": "reconnect resynchronisation under transport faults and restarts", "nontrivial": "cut mid-push or mutation while a client was away",
+             "budget": {"quick": 60, "thorough": 900}, "seeds": {"quick": 1, "thorough": 3}, "chunk": 20, "replay_attempts": 3,
+             "must_probe": ["cut_mid_push", "mutation_while_disconnected", "checkpoints"]},
+        ],
+    },
     "C03": {
         "design_ref": "4.3",
         "technique": "deterministic simulation of the whole control plane with paired clients (one state-of-the-world, one delta, identical node) on the same instance and history; equality of held sets at checkpoints",
